@@ -169,10 +169,17 @@ class Writes:
         fi = getattr(t, '_func', None)
         in_init = fi is not None and fi.name == '__init__'
 
+        fresh = self._fresh_locals(fi) if fi is not None else ()
+
         def own(x):
-            # a constructor writing its own fresh object aliases nothing
-            return in_init and isinstance(x, ast.Attribute) and \
-                isinstance(x.value, ast.Name) and x.value.id == 'self'
+            # a constructor writing its own fresh object, or a function
+            # filling in an object it has just constructed, aliases nothing
+            if not (isinstance(x, ast.Attribute) and
+                    isinstance(x.value, ast.Name)):
+                return False
+            if in_init and x.value.id == 'self':
+                return True
+            return x.value.id in fresh
         if isinstance(t, ast.Attribute):
             if not own(t):
                 w.add((t.attr, 'w'))
@@ -189,6 +196,37 @@ class Writes:
         elif isinstance(t, (ast.Tuple, ast.List)):
             for e in t.elts:
                 self._target(e, w, kind)
+
+    def _fresh_locals(self, fi):
+        """Local names that are only ever bound to objects constructed in
+        this function (x = SomeClass(...))."""
+        c = getattr(self, '_fresh', None)
+        if c is None:
+            c = self._fresh = {}
+        if fi.qual in c:
+            return c[fi.qual]
+        good, bad = set(), set(fi.params)
+        for n in walk_own(fi.node):
+            tg = []
+            if isinstance(n, ast.Assign):
+                tg = [(t, n.value) for t in n.targets]
+            elif isinstance(n, (ast.For, ast.comprehension)):
+                tg = [(n.target, None)]
+            for t, v in tg:
+                for x in ast.walk(t):
+                    if not isinstance(x, ast.Name) or \
+                            not isinstance(x.ctx, ast.Store):
+                        continue
+                    is_ctor = False
+                    if v is not None and t is x and isinstance(v, ast.Call):
+                        for tgt in self.r.targets(v):
+                            if tgt.kind == 'h2class' or (
+                                    tgt.kind == 'ext' and
+                                    (tgt.name or '').endswith('.__init__')):
+                                is_ctor = True
+                    (good if is_ctor else bad).add(x.id)
+        c[fi.qual] = good - bad
+        return c[fi.qual]
 
     def attrs(self, qual):
         return {a for a, k in self.trans.get(qual, ()) if k == 'w'}
@@ -1056,7 +1094,8 @@ class Interp:
                 r = a[1] is b[1] or (a[1] == b[1] and
                                      type(a[1]) is type(b[1]))
                 return T.C(r if isinstance(op, ast.Is) else not r)
-            if b == T.NONE and a[0] == 'obj':
+            if b == T.NONE and a[0] in ('obj', 'aff', 'cmp0', 'set', 'tuple'):
+                # constructed objects and arithmetic results are not None
                 return T.C(isinstance(op, ast.IsNot))
             x, y = (a, b) if b[0] == 'c' else (b, a) if a[0] == 'c' \
                 else tuple(sorted([a, b], key=repr))
@@ -1485,6 +1524,7 @@ class Interp:
         # discharged partial operations do not raise
         if id(node) in self.R.discharged:
             exc -= {'KeyError', 'IndexError'}
+        exc = {x for x in exc if (id(node), x) not in self.R.discharged}
         ev = self.emit(st, 'call', node, names=names or (name,),
                        targets=fis, args=tuple(args), kwargs=dict(kw),
                        recv=recv, result=result, raises=exc,
